@@ -439,24 +439,24 @@ class FST:
         fst_star = FST()
         state_renaming = FSTStateRemaining()
         state_renaming.add_states(list(self.states), 0)
-        self._add_extremity_states_to(fst_star, state_renaming, 0)
         self._add_transitions_to(fst_star, state_renaming, 0)
+        # A new state, both start and final, is the only way in and out.
+        # Looping through the original start and final states would also
+        # allow to begin in the middle of a path or to leave it.
+        state_renaming.add_state("star", 1)
+        star_state = state_renaming.get_name("star", 1)
+        fst_star.add_start_state(star_state)
+        fst_star.add_final_state(star_state)
+        for start_state in self.start_states:
+            fst_star.add_transition(star_state,
+                                    "epsilon",
+                                    state_renaming.get_name(start_state, 0),
+                                    [])
         for final_state in self.final_states:
-            for start_state in self.start_states:
-                fst_star.add_transition(
-                    state_renaming.get_name(final_state, 0),
-                    "epsilon",
-                    state_renaming.get_name(start_state, 0),
-                    []
-                )
-        for final_state in self.start_states:
-            for start_state in self.final_states:
-                fst_star.add_transition(
-                    state_renaming.get_name(final_state, 0),
-                    "epsilon",
-                    state_renaming.get_name(start_state, 0),
-                    []
-                )
+            fst_star.add_transition(state_renaming.get_name(final_state, 0),
+                                    "epsilon",
+                                    star_state,
+                                    [])
         return fst_star
 
     def to_networkx(self) -> nx.MultiDiGraph:
